@@ -83,13 +83,19 @@ def confirm(d, wt):
                 if f.endswith("_test.go"):
                     shutil.copy(os.path.join(d, f), os.path.join(dd, f))
                     copied.append(os.path.join(dd, f))
-        else:
+        elif meta.get("demo_file"):
             os.makedirs(os.path.dirname(dest), exist_ok=True)
             shutil.copy(os.path.join(d, meta["demo_file"]), dest)
             copied.append(dest)
+        tree = None
+        if meta.get("demo_tree_dest"):         # a demonstration program: the directory `demo` goes to that place
+            tree = os.path.join(wt, meta["demo_tree_dest"])
+            shutil.copytree(os.path.join(d, "demo"), tree)
         rc, o = sh(meta["demo_run"], wt, timeout=900)
         for f in copied:
             os.remove(f)
+        if tree:
+            shutil.rmtree(tree)
         return rc, o
 
     rc, o = demo()
